@@ -201,7 +201,7 @@ type Spec struct {
 	Pad      string `json:"pad"`  // filler inserted by the inner column shift, in front of the text
 	Text     string `json:"text"` // scalar content as written between the quotes
 	Marker   string `json:"marker"`
-	Delta    int    `json:"delta"`  // truth = position of Marker + Delta; -1000000: end of the scalar text
+	Delta    int    `json:"delta"`   // truth = position of Marker + Delta; -1000000: end of the scalar text
 	IfBare   bool   `json:"if_bare"` // if: condition without ${{ }}
 	TmplOff  int    `json:"tmpl_off"`
 	Variant  string `json:"variant"`
@@ -270,14 +270,16 @@ func classOf(e *actionlint.Error) int {
 			return clUntrusted
 		case has("object, array, and null values should not be evaluated"):
 			return clTmpl
-		case has("type of expression at "):
+		case has("type of expression at "), has("type of input ") && strings.Contains(m, " must be "):
 			return clValue
 		}
 		return clOther
 	case "syntax-check":
 		switch {
-		case has("unexpected key "):
+		case has("unexpected key "), has("both \"username\" and \"password\" must be specified"):
 			return clKey
+		case strings.Contains(m, " event should not be listed in sequence"):
+			return clValue
 		case has("key ") && strings.Contains(m, " is duplicated"):
 			return clDupKey
 		case has("expecting a single ${{...}}"), has("expected scalar node"), has("expecting "):
@@ -478,6 +480,22 @@ func place(doc *ynode, site string, src string, flow bool, gap, above int) *ynod
 		t.vals = []*ynode{sc("opened"), v}
 		if flow {
 			t.above = above
+		} else {
+			v.above = above
+		}
+	case "call.number-default", "call.boolean-default":
+		ty := strings.TrimSuffix(strings.TrimPrefix(site, "call."), "-default")
+		doc.get("on").set("workflow_call", mp("inputs", mp("n", mp("type", ty, "default", v))))
+		v.above = above
+	case "on.seq-schedule", "on.seq-dispatch":
+		l := sq("push", "issues", v)
+		if site == "on.seq-dispatch" {
+			l = sq(v, "push")
+		}
+		l.flow = flow
+		doc.set("on", l)
+		if flow {
+			l.above = above
 		} else {
 			v.above = above
 		}
@@ -776,7 +794,9 @@ func genLayout(r *hx.Rng, s *Spec) {
 	}
 }
 
-var keySites = []string{"top", "job", "step", "strategy", "on.push", "step.with-flow", "job.env-dup", "step.env-dup", "step.with-dup", "top.env-dup"}
+var keySites = []string{"top", "job", "step", "strategy", "on.push", "step.with-flow", "job.env-dup", "step.env-dup", "step.with-dup", "top.env-dup",
+	// a key that is reported for what its mapping lacks (credentials without a password)
+	"container.credentials", "service.credentials"}
 
 func genKeySpec(r *hx.Rng, id int) Spec {
 	s := Spec{ID: id, Family: "key"}
@@ -795,13 +815,23 @@ func genKeySpec(r *hx.Rng, id int) Spec {
 
 var valueSites = []string{"job.continue-on-error", "job.timeout-minutes", "step.timeout-minutes", "strategy.fail-fast", "strategy.max-parallel", "job.permissions", "job.runs-on", "on.issues.types",
 	// a section given as ONE placeholder whose type does not fit (reported at the value)
-	"matrix.exclude-expr", "job.env-expr", "matrix-expr"}
+	"matrix.exclude-expr", "job.env-expr", "matrix-expr",
+	// the default of a typed workflow_call input given by a placeholder of another type; an event
+	// that cannot be listed in the sequence form of on:
+	"call.number-default", "call.boolean-default", "on.seq-schedule", "on.seq-dispatch"}
 
 // the ill-typed section values (plain or double-quoted: they contain single quotes)
 var sectionExprText = map[string]string{
 	"matrix.exclude-expr": "${{ fromJSON('[1, 2]') }}",
 	"job.env-expr":        "${{ fromJSON('[3]') }}",
 	"matrix-expr":         "${{ fromJSON('4') }}",
+}
+
+var fixedValueText = map[string]string{
+	"call.number-default":  "${{ github.sha }}",
+	"call.boolean-default": "${{ github.ref }}",
+	"on.seq-schedule":      "schedule",
+	"on.seq-dispatch":      "repository_dispatch",
 }
 
 func genValueSpec(r *hx.Rng, id int) Spec {
@@ -818,6 +848,10 @@ func genValueSpec(r *hx.Rng, id int) Spec {
 	if t, ok := sectionExprText[s.Site]; ok {
 		s.Text = t
 		s.Style = []int{0, 2}[r.Intn(2)]
+	}
+	if t, ok := fixedValueText[s.Site]; ok {
+		s.Text = t
+		s.Flow = strings.HasPrefix(s.Site, "on.seq") && r.Chance(1, 2)
 	}
 	s.Marker, s.Delta = s.Text, 0
 	return s
@@ -970,6 +1004,26 @@ func build(s Spec) (*Built, error) {
 			st.above = s.Above
 			job.get("steps").vals[0] = st
 			m = st
+		}
+		if strings.HasSuffix(s.Site, ".credentials") {
+			key = quote(s.KeyStyle, "credentials")
+			cred := mp("username", "u")
+			cred.flow = s.Flow
+			cont := mp("image", "x", key, cred)
+			if s.Site == "container.credentials" {
+				job.insertAt(2, "container", cont)
+			} else {
+				job.insertAt(2, "services", mp("db", cont))
+			}
+			if s.ID%2 == 0 {
+				cont.flow = s.Flow
+			}
+			if !cont.flow {
+				cred.above = s.Above
+			}
+			scalarSrc = key
+			bt.Quoted = s.KeyStyle != 0
+			break
 		}
 		v := sc("1")
 		v.above = s.Above
@@ -1209,14 +1263,14 @@ func isYAMLSyntax(d diag) bool {
 }
 
 type fail struct {
-	What   string `json:"what"`
-	Key    string `json:"key"`
-	Spec   Spec   `json:"spec"`
-	File   string `json:"workflow"`
-	Truth  [2]int `json:"truth"`
+	What   string   `json:"what"`
+	Key    string   `json:"key"`
+	Spec   Spec     `json:"spec"`
+	File   string   `json:"workflow"`
+	Truth  [2]int   `json:"truth"`
 	Got    [][2]int `json:"reported"`
-	Detail string `json:"detail,omitempty"`
-	Shift  string `json:"shift,omitempty"`
+	Detail string   `json:"detail,omitempty"`
+	Shift  string   `json:"shift,omitempty"`
 }
 
 func classPositions(ds []diag, class int) [][2]int {
@@ -1552,9 +1606,9 @@ func shiftCheck(bt *Built, base [][2]int, what string, dl, dc int, spec Spec) []
 	}
 	k := dl + dc
 	return []fail{{
-		What:  fmt.Sprintf("shift %s by %d: the %s report moved from %v to %v, expected exactly +%d", what, k, bt.Spec.Kind, base, got, k),
-		Key:   fmt.Sprintf("shift:%s:%s:%s", what, bt.Spec.Kind, callSite(bt.Spec)),
-		Spec:  spec, File: b2.File, Truth: [2]int{b2.TruthLine, b2.TruthCol}, Got: got, Shift: what,
+		What: fmt.Sprintf("shift %s by %d: the %s report moved from %v to %v, expected exactly +%d", what, k, bt.Spec.Kind, base, got, k),
+		Key:  fmt.Sprintf("shift:%s:%s:%s", what, bt.Spec.Kind, callSite(bt.Spec)),
+		Spec: spec, File: b2.File, Truth: [2]int{b2.TruthLine, b2.TruthCol}, Got: got, Shift: what,
 	}}
 }
 
